@@ -7,6 +7,8 @@ for d in $(ls -d /verif/seeded/C*-* | sort); do
   own=$(basename $d | cut -d- -f1)
   # C06-2 is the C01-1 change proposed for C06: it is C01's to catch (DESIGN.md section 8)
   [ "$(basename $d)" = "C06-2" ] && own=C01
+  # C09-2 still applies textually but no longer compiles since the repair of F8 (kept for the record)
+  [ "$(basename $d)" = "C09-2" ] && continue
   [ -f $d/patch.diff ] && git -C /repo apply --check $d/patch.diff 2>/dev/null && echo "$d/patch.diff $own"
 done > /verif/work/regress.jobs
 cat /verif/work/regress.jobs | xargs -P "$lanes" -L 1 sh -c 'timeout 5400 /verif/tools/isolated.py "$@" 2>&1 | grep -E "exit="' _ > /verif/work/regress.log 2>&1
